@@ -361,6 +361,7 @@ type run struct {
 	stage map[int]int
 	// raced[o]: o was the common target of interleaved lock/tombstone puts
 	raced   map[int]bool
+	lastOp  string
 	raceLog string
 	races   map[int]string // op index -> blob write sequence of the race
 	viol    *violation
@@ -410,7 +411,11 @@ func (r *run) class(o int) string {
 	switch {
 	case r.objExpired(o):
 		return fpExpired
-	case r.raced[o]:
+	case r.raced[o] && r.lastOp == "gc":
+		// exactly the recorded class: a tombstone interleaved with the lock was
+		// accepted by a shard before the lock reached that shard and was rolled
+		// back (stale garbage mark), the lock was accepted, the object stayed
+		// readable – and a GC pass collected it.
 		return fpRace
 	}
 	return ""
@@ -640,7 +645,10 @@ func (r *run) exec(i int, o op) {
 		r.labels["race"] = true
 		r.races[i] = strings.TrimSpace(r.raceLog)
 		if same {
-			r.raced[tgt] = true
+			if errL == nil && errT != nil && pre == engx.OK && post == engx.OK && tombBeforeLock(r.races[i]) {
+				r.raced[tgt] = true
+				r.labels["race-tomb-rolled-back-after-partial-accept"] = true
+			}
 			if pre == engx.OK && !wasLive {
 				r.labels["race-same-target-available"] = true
 				switch {
@@ -658,7 +666,7 @@ func (r *run) exec(i int, o op) {
 				}
 			}
 			if wasLive && len(knBefore) > 0 && errT == nil {
-				r.fail(fpRace, "%s: tombstone for locked object o%d was accepted (Put = nil)", step, tgt)
+				r.fail("", "%s: tombstone for locked object o%d was accepted (Put = nil)", step, tgt)
 			}
 		}
 		if errL == nil {
@@ -691,6 +699,7 @@ func (r *run) exec(i int, o op) {
 		r.trace = append(r.trace, fmt.Sprintf("%s -> %d, %s", step, n, errStr(err)))
 		r.labels["evacuate"] = true
 	}
+	r.lastOp = o.K
 	r.checkAll(step)
 }
 
@@ -831,6 +840,21 @@ func TestC08Race(t *testing.T) {
 	})
 }
 
+// tombBeforeLock reports whether, in a race write log like "T@0 L@1 T@1 L@0",
+// the tombstone was written to some shard before the lock was written there.
+func tombBeforeLock(log string) bool {
+	seenT := map[string]bool{}
+	for _, w := range strings.Fields(log) {
+		sh := w[2:]
+		if w[0] == 'T' {
+			seenT[sh] = true
+		} else if seenT[sh] {
+			return true
+		}
+	}
+	return false
+}
+
 // schedules returns all interleavings of nT 'T' steps and nL 'L' steps.
 func schedules(nT, nL int) []string {
 	if nT == 0 && nL == 0 {
@@ -942,7 +966,7 @@ func TestC08RaceWindow(t *testing.T) {
 				if r.viol.fp != "" && rec.Known(r.viol.fp) {
 					rec.Excluded(1)
 					labels["known:"+r.viol.fp] = true
-					break
+					continue
 				}
 				t.Fatalf("C08 violated [class %s]: %s\nhistory:\n%strace of the failing replay:\n  %s",
 					r.viol.fp, r.viol.msg, h, strings.Join(r.trace, "\n  "))
